@@ -25,7 +25,7 @@ type c17 struct{}
 func init() {
 	register(c17{})
 	expectedProbes["C17"] = []string{"mix:distinct-roots", "mix:own-cache", "mix:shared-hcache", "mix:shared-libcache", "mix:shared-readonly-doc", "mix:first-use", "lock-contended", "context-switches>10",
-		"policy:random", "policy:pct", "history-checked-linearizable", "schema-id-registered-in-shared-cache", "tasks>=4", "ref-to-built-in-meta-schema"}
+		"policy:random", "policy:pct", "history-checked-linearizable", "schema-id-registered-in-shared-cache", "tasks>=4", "ref-to-built-in-meta-schema", "per-task-documents-at-the-same-urls"}
 }
 
 func (c17) ID() string { return "C17" }
@@ -133,6 +133,20 @@ func (c17) Gen(r *sim.RNG, tier string, idx int) *Scenario {
 	if r.Bool(0.2) && sc.Mix != "shared-readonly-doc" {
 		// a document that cannot be had (permanently): tasks and references fail alike
 		sc.Faults = DrawFaults(w, r, 1, []string{sim.FRefuse, sim.FTorn, sim.FIllTyped}, nil, false)
+	}
+	if sc.Mix == "distinct-roots" && r.Bool(0.5) {
+		// every task gets its own version of all documents at the same URLs (its own loader serves
+		// them): independent callers that happen to use the same locations
+		for t := range sc.Tasks {
+			wt := w.Clone()
+			for u, d := range wt.Docs {
+				wt.Docs[u] = mutateDoc(d, fmt.Sprintf("#task%d", t))
+			}
+			sc.Worlds = append(sc.Worlds, wt)
+			for i := range sc.Tasks[t] {
+				sc.Tasks[t][i].World = t + 1
+			}
+		}
 	}
 	s := &sim.SchedCfg{Seed: r.Uint64(), MaxDecisions: 20000}
 	if r.Bool(0.6) {
@@ -276,6 +290,11 @@ func (c17) Run(sc *Scenario) *Verdict {
 	}
 	store := sim.NewStore(w.Docs, sc.Faults) // permanent faults: the same for tasks and sequential references
 	key := sc.OrderKeys[0]
+	stores := map[int]*sim.Store{} // per-task worlds: built before the tasks start, read-only afterwards
+	for i, wt := range sc.Worlds {
+		stores[i+1] = sim.NewStore(wt.Docs, sc.Faults)
+		v.probe("per-task-documents-at-the-same-urls")
+	}
 	sharedDoc, _ := DecodeRoot(w)
 	withReq := sc.Mix == "distinct-roots" || sc.Mix == "own-cache" || sc.Mix == "first-use"
 
@@ -318,7 +337,13 @@ func (c17) Run(sc *Scenario) *Verdict {
 			}
 			return taskResult{Digest: out}
 		}
-		env := &Env{World: w, Store: store, OrderKey: key, Budget: StepBudgetDefault, Sched: sched, Cache: shared}
+		ew, es := w, store
+		if op.World > 0 {
+			if wt := sc.WorldOf(op.World); wt != nil {
+				ew, es = wt, stores[op.World]
+			}
+		}
+		env := &Env{World: ew, Store: es, OrderKey: key, Budget: StepBudgetDefault, Sched: sched, Cache: shared}
 		return digestOf(ExecOp(op, env), withReq)
 	}
 	newShared := func() (spec.ResolutionCache, *recCache) {
